@@ -49,20 +49,20 @@ type Read struct {
 
 // Wake is one invocation of a probe (a Run-loop wake-up, a Reconcile or a MapInput).
 type Wake struct {
-	Probe   string  `json:"probe"`
-	Kind    string  `json:"kind"` // run | reconcile | map | hook
-	N       int     `json:"n"`
-	Target  gp.Key  `json:"target,omitempty"`
-	AtMS    float64 `json:"at_ms"`
-	EndMS   float64 `json:"end_ms"`
-	Reads   []Read  `json:"reads,omitempty"`
-	Fault   string  `json:"fault,omitempty"`
-	TrigTok string  `json:"trig_tok,omitempty"`
-	TrigFor string  `json:"trig_for,omitempty"`
-	TrigTD  bool    `json:"trig_tearing_down,omitempty"`
-	TrigFE  bool    `json:"trig_fins_empty,omitempty"`
+	Probe   string   `json:"probe"`
+	Kind    string   `json:"kind"` // run | reconcile | map | hook
+	N       int      `json:"n"`
+	Target  gp.Key   `json:"target,omitempty"`
+	AtMS    float64  `json:"at_ms"`
+	EndMS   float64  `json:"end_ms"`
+	Reads   []Read   `json:"reads,omitempty"`
+	Fault   string   `json:"fault,omitempty"`
+	TrigTok string   `json:"trig_tok,omitempty"`
+	TrigFor string   `json:"trig_for,omitempty"`
+	TrigTD  bool     `json:"trig_tearing_down,omitempty"`
+	TrigFE  bool     `json:"trig_fins_empty,omitempty"`
 	Mapped  []string `json:"mapped,omitempty"`
-	Worker  int64   `json:"-"`
+	Worker  int64    `json:"-"`
 }
 
 // CtrlCfg configures a probe controller.Controller.
@@ -74,12 +74,12 @@ type CtrlCfg struct {
 	LateAt     int
 	// LateKindFlip: on wake LateAt the current inputs are re-declared with other kinds (destroy-ready -> weak or strong, weak <-> strong)
 	LateKindFlip bool
-	BusyBefore []int // virtual ms per wake (cycled)
-	BusyAfter  []int
-	Late       bool           // registered after Run has started
-	Faults     map[int]string // wake index -> "err" | "panic"
-	ResetAt    int            // call ResetRestartBackoff on this wake (if > 0)
-	Script     func(ctx context.Context, r controller.Runtime, n int) `json:"-"` // optional extra behaviour on each wake (C08)
+	BusyBefore   []int // virtual ms per wake (cycled)
+	BusyAfter    []int
+	Late         bool                                                   // registered after Run has started
+	Faults       map[int]string                                         // wake index -> "err" | "panic"
+	ResetAt      int                                                    // call ResetRestartBackoff on this wake (if > 0)
+	Script       func(ctx context.Context, r controller.Runtime, n int) `json:"-"` // optional extra behaviour on each wake (C08)
 }
 
 // QCfg configures a probe controller.QController.
@@ -90,8 +90,8 @@ type QCfg struct {
 	Concurrency uint
 	// ConcurrencySet forces the Concurrency value to be passed even when it is 0 (invalid on purpose).
 	ConcurrencySet bool
-	Busy        []int
-	Late        bool
+	Busy           []int
+	Late           bool
 	// Outcome by (kind,"id") invocation count: "ok" | "err" | "panic" | "requeue:<ms>" | "requeueerr:<ms>" | "skip"
 	Outcomes   map[string][]string
 	MapFaults  map[int]string // MapInput invocation index -> "err" | "panic"
@@ -102,11 +102,11 @@ type QCfg struct {
 
 // Cfg configures a world.
 type Cfg struct {
-	Ctrls    []CtrlCfg
-	QCtrls   []QCfg
-	Cached   []Kind
-	MaxDelay int
-	Metrics  bool
+	Ctrls         []CtrlCfg
+	QCtrls        []QCfg
+	Cached        []Kind
+	MaxDelay      int
+	Metrics       bool
 	NoGateOnReads bool
 	// MergeBatches: the proxy re-batches aggregated watch events (a batch may absorb the batches that follow it)
 	MergeBatches bool
@@ -363,10 +363,18 @@ func (p *Probe) Inputs() []controller.Input { return slices.Clone(p.cfg.Inputs) 
 func (p *Probe) Outputs() []controller.Output { return slices.Clone(p.cfg.Outputs) }
 
 // CurrentInputs returns the inputs currently declared.
-func (p *Probe) CurrentInputs() []controller.Input { p.mu.Lock(); defer p.mu.Unlock(); return slices.Clone(p.inputs) }
+func (p *Probe) CurrentInputs() []controller.Input {
+	p.mu.Lock()
+	defer p.mu.Unlock()
+	return slices.Clone(p.inputs)
+}
 
 // Starts returns the Run entry times.
-func (p *Probe) Starts() []float64 { p.mu.Lock(); defer p.mu.Unlock(); return slices.Clone(p.RunStarts) }
+func (p *Probe) Starts() []float64 {
+	p.mu.Lock()
+	defer p.mu.Unlock()
+	return slices.Clone(p.RunStarts)
+}
 
 func sleepCtx(ctx context.Context, ms int) {
 	if ms <= 0 {
@@ -714,10 +722,18 @@ func (p *QProbe) primary() Kind {
 }
 
 // Probes returns the registered probe controllers.
-func (w *World) Probes() map[string]*Probe { w.mu.Lock(); defer w.mu.Unlock(); return mapsClone(w.probes) }
+func (w *World) Probes() map[string]*Probe {
+	w.mu.Lock()
+	defer w.mu.Unlock()
+	return mapsClone(w.probes)
+}
 
 // QProbes returns the registered queue probes.
-func (w *World) QProbes() map[string]*QProbe { w.mu.Lock(); defer w.mu.Unlock(); return mapsClone(w.qprobes) }
+func (w *World) QProbes() map[string]*QProbe {
+	w.mu.Lock()
+	defer w.mu.Unlock()
+	return mapsClone(w.qprobes)
+}
 
 func mapsClone[K comparable, V any](m map[K]V) map[K]V {
 	out := make(map[K]V, len(m))
